@@ -14,6 +14,8 @@
 //	hull      unit: the chunk time hull the time index keeps (chkInfo creation + update) vs the Lean hull model vs "covers every write"
 //	sizerace  (hook) a write confirmed right after truncate's snapshot of the sizes (regression of the fixed finding F43)
 //	droprace  (hook) a write into a NEW chunk between truncate's snapshot and deleteJournal's exclusive lock: the partition must stay
+//	bucket    the dropped partition shares its two-character parent folder with an unselected one: files, layout, content of the
+//	          unselected ones are the same after DRYRUN, run, graceful stop + restart
 package main
 
 import (
@@ -38,6 +40,7 @@ import (
 	"github.com/logrange/logrange/pkg/model"
 	"github.com/logrange/logrange/pkg/partition"
 	"github.com/logrange/logrange/pkg/tmindex"
+	"github.com/logrange/logrange/pkg/utils"
 	"github.com/logrange/logrange/pkg/utils/verifhook"
 	"verifharness/internal/lrsrv"
 	"verifharness/internal/vh"
@@ -1830,6 +1833,8 @@ func replay(path string) {
 		sectionUnflushed()
 	case "lightfill":
 		sectionLightFill()
+	case "bucket":
+		sectionBucket()
 	case "hull":
 		sectionHull()
 	default:
@@ -1951,6 +1956,36 @@ func sectionDropRace() {
 	}
 }
 
+// holdersOutcome asks the model driver for the outcome of a trace of the product system (Model/TruncateHolders.lean: tag index
+// protocol x acknowledged bytes x deleteJournal statement by statement, with the regenerated shape facts) and reduces it to
+// "dropped" / "kept:<confirmed bytes of source 0>"
+func holdersOutcome(trace string) (string, string) {
+	outs, err := vh.Batch(args.Driver, []string{"holders " + trace})
+	if err != nil || len(outs) != 1 {
+		return "driver-error", fmt.Sprint(err)
+	}
+	raw := strings.TrimSpace(outs[0])
+	drops, live := "", ""
+	for _, f := range strings.Fields(raw) {
+		if strings.HasPrefix(f, "drops=") {
+			drops = strings.TrimPrefix(f, "drops=")
+		}
+		if strings.HasPrefix(f, "live=") {
+			live = strings.TrimPrefix(f, "live=")
+		}
+	}
+	if drops != "-" && drops != "" {
+		return "dropped", raw
+	}
+	for _, l := range strings.Split(live, ",") {
+		f := strings.Split(l, ":")
+		if len(f) == 4 && f[0] == "0" {
+			return "kept:" + f[1], raw
+		}
+	}
+	return "absent", raw
+}
+
 func dropRaceCase(sec *vh.Section, form string) {
 	const maxChunk = 100
 	dir := lrsrv.NewDir()
@@ -2041,6 +2076,20 @@ func dropRaceCase(sec *vh.Section, form string) {
 	if len(mid.Chunks) != 2 {
 		res.Note("droprace(%s): the racing write did not open a new chunk (%s): interleaving not exercised", form, mid.layout())
 		return
+	}
+	// IMPL vs MODEL among holders: writer 1 fills the chunk and lets go, TRUNCATE (actor 2) holds the partition, writer 3 writes
+	// and lets go at the hook, TRUNCATE removes what its snapshot held, then deleteJournal statement by statement
+	{
+		s0, w := before.size(), mid.Chunks[1].Size
+		trace := fmt.Sprintf("goc,1,7,1 w,1,0,%d fl,0 rel,1,0 gt,2,0,1 goc,3,7,0 w,3,0,%d fl,0 rel,3,0 rm,2,0,%d,0 djl,2,0 djc,2 djd,2 dju,2 rel,2,0", s0, w, s0)
+		mo, raw := holdersOutcome(trace)
+		io := "dropped"
+		if after.Exists {
+			io = fmt.Sprintf("kept:%d", after.size())
+		}
+		if mo != io {
+			res.Mismatch(vh.Mismatch{Section: "droprace", Function: "deleteJournal among holders (Model/TruncateHolders.lean) for " + q, Input: in, Impl: io, Model: mo + " <- " + raw})
+		}
 	}
 	rs, rerr := readSeqs(after.Read)
 	if xerr != nil || !after.Exists || rerr != "" || fmt.Sprint(rs) != fmt.Sprint([]int{late}) {
@@ -2215,17 +2264,39 @@ func sectionTrunc2Race() {
 		res.Note("trunc2race: statement B neither parked nor finished within 10 s")
 		return
 	}
-	vh.WithTimeout(20*time.Second, func() { panA = vh.Recover(func() { srv.Admin.Execute(api.ExecRequest{Query: q}) }) })
-	// A's chunks are closed and their files removed asynchronously: wait until only the kept chunk's file is left
-	for i := 0; i < 400 && datFiles(dir) > 1; i++ {
-		time.Sleep(10 * time.Millisecond)
+	finA := make(chan struct{})
+	go func() {
+		defer close(finA)
+		pa := vh.Recover(func() { srv.Admin.Execute(api.ExecRequest{Query: q}) })
+		panA = pa
+	}()
+	serialized := false
+	select {
+	case <-finA:
+		// A's chunks are closed and their files removed asynchronously: wait until only the kept chunk's file is left
+		for i := 0; i < 400 && datFiles(dir) > 1; i++ {
+			time.Sleep(10 * time.Millisecond)
+		}
+		time.Sleep(20 * time.Millisecond)
+	case <-time.After(4 * time.Second):
+		// A waits for B: the statements are serialised (a repair of the statement-vs-statement path of F56); the interleaving cannot happen
+		serialized = true
 	}
-	time.Sleep(20 * time.Millisecond)
 	close(release)
 	select {
 	case <-finB:
 	case <-time.After(20 * time.Second):
 		panB = "statement B did not finish within 20 s after its release"
+	}
+	select {
+	case <-finA:
+	case <-time.After(20 * time.Second):
+		panA = "statement A did not finish within 20 s after B's release"
+	}
+	if serialized {
+		res.Dist(sec, "statement A did not run while B was parked: TRUNCATE statements are serialised")
+	} else {
+		res.Dist(sec, "statement A completed while B was parked")
 	}
 	res.Eval(sec, q)
 	in := map[string]interface{}{"stmt_A": q, "stmt_B": q, "before": before.layout(),
@@ -2334,6 +2405,188 @@ func sectionRestartLeft() {
 }
 
 // ---------------------------------------------------------------------------------------------
+// bucket: the dropped partition shares its two-character parent folder with a partition that is not selected
+
+// folderOf answers the partition's folder on disk ("" when the partition does not exist)
+func folderOf(srv *lrsrv.Srv, tags string) string {
+	src, _, err := srv.TIndex.GetJournal(tags)
+	if err != nil {
+		return ""
+	}
+	defer srv.TIndex.Release(src)
+	j, err := srv.Journals.GetOrCreate(context.Background(), src)
+	if err != nil {
+		return ""
+	}
+	return j.Chunks().LocalFolder()
+}
+
+// diskList lists the regular files below dir as "relative path:size", sorted
+func diskList(dir string) []string {
+	var out []string
+	filepath.Walk(dir, func(p string, fi os.FileInfo, err error) error {
+		if err == nil && fi.Mode().IsRegular() {
+			rel, _ := filepath.Rel(dir, p)
+			out = append(out, fmt.Sprintf("%s:%d", rel, fi.Size()))
+		}
+		return nil
+	})
+	sort.Strings(out)
+	return out
+}
+
+func sectionBucket() {
+	sec := res.Section("bucket", "spec-search",
+		"three partitions: the selected one S (6 events in 2 chunks, or no events at all), a partition N1 that does not match the source condition and lives in the SAME two-character parent folder as S (the journal controller stores a partition in <dir>/<last two characters of its id>/<id>; ids are burnt from the process-wide counter until the next one lands in S's folder), and a partition N2 in another folder; TRUNCATE DRYRUN, then TRUNCATE of S in a form that drops it (MAXSIZE 1 / BEFORE / MAXDBSIZE 0 / no bounds on the empty S). N1 and N2 do not match the source condition: their files on disk (names and sizes), their chunk layout and their content must be the same after the DRYRUN, after the run, and after a graceful stop and restart on the same directory")
+	defer res.Done(sec)
+	type form struct {
+		stmt  string
+		empty bool
+	}
+	for _, fm := range []form{{" maxsize 1", false}, {" before \"100000\"", false}, {" maxdbsize 0", false}, {"", true}} {
+		bucketCase(sec, fm.stmt, fm.empty)
+	}
+}
+
+func bucketCase(sec *vh.Section, stmt string, empty bool) {
+	dir := lrsrv.NewDir()
+	defer os.RemoveAll(dir)
+	opts := lrsrv.Opts{MaxChunkSize: 100}
+	srv, err := lrsrv.Start(dir, opts)
+	if err != nil {
+		res.Note("bucket: %v", err)
+		return
+	}
+	stopped := false
+	defer func() {
+		if !stopped {
+			srv.Stop()
+		}
+	}()
+	write := func(tags string, from, n int) bool {
+		var evs []*api.LogEvent
+		for k := 0; k < n; k++ {
+			evs = append(evs, &api.LogEvent{Timestamp: int64(from + k), Message: fmt.Sprintf("%04d_", from+k)})
+		}
+		var wr api.WriteResult
+		err := srv.Client.Write(context.Background(), tags, "", evs, &wr)
+		return err == nil && wr.Err == nil
+	}
+	sTags, n2Tags := "g=k,p=1", "g=k,p=2"
+	nS := 6
+	if empty {
+		nS = 0
+	}
+	if !write(sTags, 1, nS) || !write(n2Tags, 101, 7) {
+		res.Note("bucket: building the layout failed")
+		return
+	}
+	sDir := folderOf(srv, sTags)
+	if sDir == "" {
+		res.Note("bucket: the selected partition has no folder")
+		return
+	}
+	// the twin: burn ids of the process-wide counter until the next partition lands in S's parent folder. Readers
+	// (cursors) take ids from the same counter, so nothing else runs meanwhile; a miss is retried with another partition
+	n1Tags := ""
+	for try := 0; try < 4 && n1Tags == ""; try++ {
+		want, _ := strconv.ParseUint(filepath.Base(filepath.Dir(sDir)), 16, 64)
+		for i := 0; i < 600; i++ {
+			if ((utils.NextSimpleId()>>16)+1)&0xFF == want {
+				break
+			}
+		}
+		tg := fmt.Sprintf("g=k,p=%d", 10+try)
+		if !write(tg, 201, 9) {
+			res.Note("bucket: writing the twin failed")
+			return
+		}
+		if d := folderOf(srv, tg); d != "" && filepath.Dir(d) == filepath.Dir(sDir) && d != sDir {
+			n1Tags = tg
+		}
+	}
+	if n1Tags == "" {
+		res.Note("bucket: no partition in the selected one's parent folder after 4 attempts")
+		return
+	}
+	srv.FlushWait()
+	settle(srv, sTags, nS)
+	settle(srv, n1Tags, 9)
+	settle(srv, n2Tags, 7)
+	others := []string{n1Tags, n2Tags}
+	type snap struct {
+		obs  partObs
+		disk []string
+	}
+	look := func(s *lrsrv.Srv) []snap {
+		var r []snap
+		for _, tg := range others {
+			settle(s, tg, -1)
+			sn := snap{obs: observe(s, tg)}
+			if d := folderOf(s, tg); d != "" {
+				sn.disk = diskList(d)
+			}
+			r = append(r, sn)
+		}
+		return r
+	}
+	before := look(srv)
+	sBefore := observe(srv, sTags)
+	q := "truncate {" + sTags + "}" + stmt
+	dq := strings.Replace(q, "truncate ", "truncate dryrun ", 1)
+	in := map[string]interface{}{"selected": sTags + ": " + sBefore.layout(), "same_parent_folder": n1Tags + ": " + before[0].obs.layout(), "other_folder": n2Tags + ": " + before[1].obs.layout(),
+		"folders": []string{sDir, folderOf(srv, n1Tags), folderOf(srv, n2Tags)}, "stmts": []string{dq, q}, "then": "graceful stop; restart on the same directory; select from each"}
+	res.Eval(sec, q)
+	same := func(when string, now []snap, disk bool) bool {
+		for i, tg := range others {
+			where := "another folder"
+			if i == 0 {
+				where = "the parent folder of the selected partition"
+			}
+			if fmt.Sprint(now[i].obs.seqs()) != fmt.Sprint(before[i].obs.seqs()) || strings.Join(now[i].obs.Read, ",") != strings.Join(before[i].obs.Read, ",") || now[i].obs.Exists != before[i].obs.Exists {
+				res.SpecFail(vh.SpecFailure{Section: "bucket", Kind: "unselected-changed", Input: in, Impl: fmt.Sprintf("%s %s: %s", when, tg, now[i].obs.layout()), Spec: before[i].obs.layout(),
+					What: fmt.Sprintf("%s: partition %s (in %s) does not match the source condition of %q, yet its content changed", when, tg, where, q)})
+				return false
+			}
+			if disk && strings.Join(now[i].disk, " ") != strings.Join(before[i].disk, " ") {
+				res.SpecFail(vh.SpecFailure{Section: "bucket", Kind: "unselected-files-changed", Input: in, Impl: fmt.Sprintf("%s %s: files %v", when, tg, now[i].disk), Spec: fmt.Sprintf("files %v", before[i].disk),
+					What: fmt.Sprintf("%s: partition %s (in %s) does not match the source condition of %q, yet its files on disk changed (the server still answers from the descriptors it holds; the events are gone once the files have to be opened again)", when, tg, where, q)})
+				return false
+			}
+		}
+		return true
+	}
+	if _, err := srv.Exec(dq); err != nil {
+		res.Note("bucket: %s: %v", dq, err)
+	}
+	if !same("after "+dq, look(srv), true) {
+		return
+	}
+	out, xerr := srv.Exec(q)
+	// the chunk files of S go asynchronously; its folder goes in deleteJournal, before the statement is acknowledged
+	time.Sleep(20 * time.Millisecond)
+	sAfter := observe(srv, sTags)
+	if xerr != nil || sAfter.Exists {
+		res.Dist(sec, "the selected partition was not dropped")
+	} else {
+		res.Dist(sec, "the selected partition was dropped")
+	}
+	in["report"] = strings.TrimSpace(out)
+	if !same("after "+q, look(srv), true) {
+		return
+	}
+	srv.Stop()
+	stopped = true
+	srv2, err := lrsrv.Start(dir, opts)
+	if err != nil {
+		res.SpecFail(vh.SpecFailure{Section: "bucket", Kind: "restart-refused", Input: in, Impl: err.Error(), Spec: "starts", What: "the server does not start on the directory a graceful stop after TRUNCATE left"})
+		return
+	}
+	defer srv2.Stop()
+	same("after "+q+", a graceful stop and a restart", look(srv2), false)
+}
+
+// ---------------------------------------------------------------------------------------------
 // unflushed: a TRUNCATE right after an acknowledged write, inside the flush period
 
 func sectionUnflushed() {
@@ -2364,6 +2617,17 @@ func sectionUnflushed() {
 		res.Eval(sec, q)
 		in := map[string]interface{}{"flush_ms": 400, "write": "3 events into the new partition " + tags + ", acknowledged", "then_at_once": []string{strings.Replace(q, "truncate ", "truncate dryrun ", 1), q}, "then": "wait 0.55 s, select"}
 		rs, rerr := readSeqs(after.Read)
+		// IMPL vs MODEL among holders: the writer's bytes are acknowledged, not flushed, when deleteJournal runs; the flush timer fires later
+		if werr == nil && wr.Err == nil {
+			mo, raw := holdersOutcome("goc,1,7,1 w,1,0,57 rel,1,0 gt,2,0,1 djl,2,0 djc,2 djd,2 dju,2 rel,2,0 fl,0")
+			io := "dropped"
+			if after.Exists {
+				io = "kept"
+			}
+			if strings.SplitN(mo, ":", 2)[0] != io {
+				res.Mismatch(vh.Mismatch{Section: "unflushed", Function: "deleteJournal among holders (Model/TruncateHolders.lean) for " + q, Input: in, Impl: io, Model: mo + " <- " + raw})
+			}
+		}
 		dryRep, _, _ := parseReport(dry)
 		realRep, _, _ := parseReport(out)
 		if werr == nil && wr.Err == nil && xerr == nil && after.Exists && fmt.Sprint(rs) == "[1 2 3]" && len(dryRep) == 1 && dryRep[0].Deleted && len(realRep) == 0 {
@@ -2600,5 +2864,6 @@ func main() {
 	sectionRestartLeft()
 	sectionUnflushed()
 	sectionLightFill()
+	sectionBucket()
 	res.Write(args.Out)
 }
